@@ -8,6 +8,7 @@ import Driver.C01
 import Driver.C13
 import Driver.C08
 import Driver.C12
+import Driver.C03
 open AITB
 
 def handleLine (line : String) : String :=
@@ -24,6 +25,7 @@ def handleLine (line : String) : String :=
   | "C13" :: rest => DrvC13.handle rest
   | "C08" :: rest => DrvC08.handle rest
   | "C12" :: rest => DrvC12.handle rest
+  | "C03" :: rest => DrvC03.handle rest
   | _ => "bad-op"
 
 partial def loop (h : IO.FS.Stream) (out : IO.FS.Stream) : IO Unit := do
